@@ -48,6 +48,8 @@ def gen_functions():
         out.append(("gen_fn/pair/%d" % k, "#['int, 'int] { =[a, b], [[a, %d] __integer_multiply__, b] __integer_add__ }" % k))
         out.append(("gen_fn/tuple/%d" % k, "#'int { P[x: ~, y: %d] }" % k))
         out.append(("gen_fn/bin/%d" % k, "#'int { | =%d => 0x%02x | 0x00 }" % (k, k)))
+        # binary constants that are not valid UTF-8, and a string that is
+        out.append(("gen_fn/bin_high/%d" % k, "#'int { | =%d => 0x%02x504e47 | =0 => \"h\u00e9llo\" | 0xff80 }" % (k, 0x80 + k)))
     # partial-type patterns over values built inside the function (Ok / nil / user tuples): the
     # type-compatibility tables of the packaged program must still answer the same
     vals = ["Ok", "[]", "A", "A[1]", "P[x: 1]", "[1, 2]", "Ok[1]"]
